@@ -196,6 +196,11 @@ func (s *System) stop(checkLog bool, timeout ...time.Duration) error {
 			break
 		case <-time.After(stopTimeout):
 			s.Logger().Error("actor system stop failed", log.Duration("timeout", stopTimeout))
+			// 仍在终止中的 Actor 结束后再停止调度器：此处直接返回会使调度器的协程永久驻留
+			go func() {
+				<-s.guardClosedSignal
+				s.scheduler.Stop()
+			}()
 			return vivid.ErrorActorSystemStopFailed.With(context.DeadlineExceeded)
 		}
 	}
